@@ -242,7 +242,7 @@ def yardstick(refs, names, constraints, fixed, pdict):
                     continue
                 w = np.linalg.solve(L, d)
                 nl = max(nl, float(np.sqrt(w @ w)) / max(nlin, 1e-300))
-    return {"ok": True, "cond": cond, "sigma": sig, "condV": condV, "nonlinearity": nl}
+    return {"ok": True, "cond": cond, "sigma": sig, "condV": condV, "nonlinearity": nl, "free": free, "cov": C}
 
 
 # ------------------------------------------------------------------ generation
@@ -279,10 +279,6 @@ def gen_member(rng, tier, ftype, fam, truth, prefix, want):
             op = gen.gen_source(rng, n, ftype, "%se%d" % (prefix, k), yscale=yscale, xscale=0.1, force=force, allow_model=True, allow_x=(ftype == "xy"))
         ops.append(op)
     return {"spec": spec, "setup": ops}
-
-
-def gen_matrix_constraint_in_order(rng, names, vals):
-    return gen.gen_constraint(rng, names, vals, force_kind="matrix")
 
 
 def gen_problem(rng, tier, kind, minimizer, subset, want):
@@ -635,7 +631,12 @@ def read_results(b, asym, band_x):
     out["values_by_name"] = dict(zip(b.names, out["values"]))
     out["bands"] = []
     if band_x is not None:
-        out["bands"] = read_bands(b, band_x, out["cov"])
+        try:
+            out["bands"] = read_bands(b, band_x, out["cov"])
+        except Exception:
+            # error_band needs finite parameter errors (numerical derivative steps): treated like an unavailable covariance matrix
+            out["bands"] = []
+            out["bands_raised"] = fmt_exc().strip().splitlines()[-1][:120]
     if asym:
         with time_limit(120):
             ae = fit.asymmetric_parameter_errors
@@ -655,9 +656,9 @@ def read_bands(b, band_x, cov):
 
 # ------------------------------------------------------------------ classifiers of known mechanisms (predicates over the witness)
 def fd_cov(b, cov_guess):
-    """Covariance matrix from central second differences of kafe2's *own* cost function of the fit `b`, with steps of 0.1
-    conditional sigma of every parameter (taken from `cov_guess`) — what an error matrix that does not depend on the units of
-    the parameters looks like.  Used only to decide *why* an uncertainty comparison failed."""
+    """Covariance matrix from central second differences of kafe2's *own* cost function of the fit `b`, with steps of 0.1 and 0.05
+    conditional sigma of every parameter (taken from `cov_guess`; Richardson-extrapolated) — what an error matrix that does not
+    depend on the units of the parameters looks like.  Used only to decide *why* an uncertainty comparison failed."""
     fitter = b.fit._fitter
     names = b.names
     fixed = set(fitter.fixed_parameters)
@@ -665,12 +666,13 @@ def fd_cov(b, cov_guess):
     p0 = np.array(b.fit.parameter_values, dtype=float)
     f = fitter._fcn_wrapper
     Ci = np.linalg.inv(np.asarray(cov_guess, dtype=float)[np.ix_(free, free)])
-    h = np.zeros(len(names))
-    h[free] = 0.1 / np.sqrt(np.diag(Ci))
     k = len(free)
-    H = np.zeros((k, k))
     f0 = f(*p0)
-    try:
+
+    def hess(step):
+        h = np.zeros(len(names))
+        h[free] = step / np.sqrt(np.diag(Ci))
+        H = np.zeros((k, k))
         for a, i in enumerate(free):
             for c, j in enumerate(free):
                 if c < a:
@@ -688,6 +690,10 @@ def fd_cov(b, cov_guess):
                         q[j] += sj * h[j]
                         v += si * sj * f(*q)
                     H[a, c] = H[c, a] = v / (4 * h[i] * h[j])
+        return H
+
+    try:
+        H = (4.0 * hess(0.05) - hess(0.1)) / 3.0
     finally:
         f(*p0)
     C = np.zeros((len(names), len(names)))
@@ -695,19 +701,48 @@ def fd_cov(b, cov_guess):
     return C
 
 
+def _ndev(A, B):
+    """largest deviation of two covariance matrices in units of sqrt(B_ii B_jj)"""
+    if A is None or B is None:
+        return np.inf
+    d = np.sqrt(np.abs(np.diag(B)))
+    nrm = np.where(np.outer(d, d) > 0, np.outer(d, d), 1.0)
+    with np.errstate(invalid="ignore"):
+        x = np.abs(np.asarray(A, dtype=float) - B) / nrm
+    return float(np.max(np.where(np.isnan(x), np.inf, x)))
+
+
 def classify_cov(info):
-    """Failing uncertainty observable (errors / covariance / correlation / error band).
-    KEY_ND_HESSIAN: transformation = scaling AND backend = scipy AND values, chi2 and cost agreed AND a covariance matrix
-    computed from the cost function of the very same transformed fit with steps proportional to sigma agrees with the scaled
-    base result (i.e. only the step sizes of the numerical Hessian depend on the units)."""
-    if info["kind"] != "scaling" or info["minimizer"] != "scipy":
+    """Failing uncertainty observable (errors / covariance / correlation / error band, or a covariance matrix available for only
+    one of the two problems).
+    KEY_ND_HESSIAN: transformation = scaling AND backend = scipy AND both reported matrices have their zero rows / columns exactly at
+    the fixed parameters (no index slip) AND the finite-difference covariance matrices (steps proportional to sigma) of the cost
+    functions of the two fits agree with each other through the relabelling AND at least one of the two *reported* matrices disagrees
+    with the finite-difference matrix of its own fit — i.e. the problems are equivalent, only the absolute steps of the numerical
+    Hessian did not fit one of the two unit systems."""
+    if info["minimizer"] != "scipy" or info["kind"] != "scaling":
         return None
     try:
-        exp = info["exp_cov"]
-        C = fd_cov(info["built"], exp)
-        nrm = np.sqrt(np.outer(np.diag(exp), np.diag(exp)))
-        nrm = np.where(nrm > 0, nrm, 1.0)
-        if np.all(np.isfinite(C)) and np.all(np.abs(C - exp) / nrm <= 5e-2):
+        base, tb = info["base_built"], info["built"]
+        for bt, rep in ((base, info["reported_b"]), (tb, info["reported_t"])):
+            if rep is None:
+                continue
+            fixed = set(bt.fit._fitter.fixed_parameters)
+            for i, n in enumerate(bt.names):
+                row_zero = bool(np.all(np.asarray(rep)[i] == 0)) and bool(np.all(np.asarray(rep)[:, i] == 0))
+                if row_zero != (n in fixed):
+                    return None
+        idx = [base.names.index(n) for n in tb.names]
+        fac = info["fac"]
+        guess_b = info["cov_ref_b"]
+        guess_t = guess_b[np.ix_(idx, idx)] * np.outer(fac, fac)
+        Fb = fd_cov(base, guess_b)
+        Ft = fd_cov(tb, guess_t)
+        Fb_t = Fb[np.ix_(idx, idx)] * np.outer(fac, fac)
+        if not (np.all(np.isfinite(Fb)) and np.all(np.isfinite(Ft))) or _ndev(Ft, Fb_t) > 0.1:
+            return None
+        tol = info["cov_tol"]
+        if _ndev(info["reported_t"], Ft) > tol or _ndev(info["reported_b"], Fb) > tol:
             return KEY_ND_HESSIAN
     except Exception:
         return None
@@ -860,7 +895,10 @@ def compare_triple(ctx, case, vi, base, bres, sig_b, guards):
     sig_t = np.array([sig_b.get(n, 0.0) for n in names_t]) * fac
     sig_safe = np.where(sig_t > 0, sig_t, 1.0)
     wk = "%s|%s" % (tkind, mini)
-    info = {"kind": tkind, "minimizer": mini, "built": tb, "base_built": base}
+    cov_ref_b = np.zeros((len(names_b), len(names_b)))
+    fi = [names_b.index(n) for n in guards["free_ref"]]
+    cov_ref_b[np.ix_(fi, fi)] = guards["cov_ref"]
+    info = {"kind": tkind, "minimizer": mini, "built": tb, "base_built": base, "fac": fac, "cov_ref_b": cov_ref_b, "reported_b": bres["cov"], "reported_t": tres["cov"], "cov_tol": 2 * etol}
     cache = {}
 
     def worst(name, v):
@@ -915,6 +953,24 @@ def compare_triple(ctx, case, vi, base, bres, sig_b, guards):
         return
 
     # ---- uncertainties
+    if guards["skip_uncertainties"] == "base-covariance-not-available":
+        # not available for the base problem: then it must not be available for the relabelled problem either
+        tC = tres["cov"]
+        t_ok = tC is not None and np.all(np.isfinite(tC)) and np.all(np.isfinite(tres["errors"])) and np.all(np.diag(tC)[free_t] > 0)
+        if t_ok:
+
+            def key_swapped():
+                return classify_cov(info)
+
+            ctx.check(
+                "parameter_cov_mat.available-in-both",
+                False,
+                lambda: dict(tag, names=names_t, base_errors=bres["errors"], base_cov=bres["cov"], base_error_band=bres.get("bands_raised"), transformed_errors=tres["errors"], transformed_cov=tC),
+                key=key_swapped,
+            )
+        else:
+            ctx.note("uncertainties-not-compared:covariance-not-available-in-both")
+        return
     if guards["skip_uncertainties"]:
         ctx.note("uncertainties-not-compared:" + guards["skip_uncertainties"])
         return
@@ -1077,7 +1133,7 @@ def run_case(ctx, case):
         ctx.discard("ill-posed-at-optimum")
         return False
     sig_b = yo["sigma"]
-    guards = {"skip_uncertainties": None, "gof_sensitivity": 0.0}
+    guards = {"skip_uncertainties": None, "gof_sensitivity": 0.0, "cov_ref": yo["cov"], "free_ref": yo["free"]}
     guards["parabolic"] = all(r.model.linear and not r.has_x_source() and not any(s_["reference"] == "model" for s_ in r.sources) for r in base.refs)
     # first-order sensitivity of chi2 (= cost - ln det V) to the position of the optimum, per sigma (yardstick only)
     pvec = np.array([pdo[n] for n in names], dtype=float)
@@ -1130,7 +1186,7 @@ def run_case(ctx, case):
     nontrivial = nfree >= 2 or bool(subsets)
     # when are the reported uncertainties comparable at the 2e-2 level?
     free_i = [i for i, n in enumerate(names) if n not in problem["fixed"]]
-    if bres["cov"] is None or not np.all(np.isfinite(bres["cov"])) or not np.all(np.isfinite(bres["errors"])) or np.any(np.diag(bres["cov"])[free_i] <= 0):
+    if bres["cov"] is None or not np.all(np.isfinite(bres["cov"])) or not np.all(np.isfinite(bres["errors"])) or np.any(np.diag(bres["cov"])[free_i] <= 0) or bres.get("bands_raised"):
         guards["skip_uncertainties"] = "base-covariance-not-available"
     elif near_limit:
         guards["skip_uncertainties"] = "parameter-within-3-sigma-of-a-limit"
